@@ -19,25 +19,28 @@ N_LISTS = 12
 LIST_NAMES = ["types", "absinterfaces", "procedures", "submodprocedures", "modules", "submodules", "programs",
               "blockdata", "namelists"]
 # label -> ("file", k) | ("set", k): positions in Out/Project.v [pipeline]
+# label -> ("file", k) | ("fixed", k) | ("idset", k): the phases of Out/Project.v [pipeline]
 PH = {
-    "parse": ("file", 0), "topo": ("set", 0),
-    "corr-set": ("set", 1), "corr-proc": ("file", 1), "corr-program": ("file", 2), "corr-blockdata": ("file", 3),
-    "prune-set": ("set", 2), "prune-proc": ("file", 4), "prune-program": ("file", 5), "prune-blockdata": ("file", 6),
-    "glue": ("set", 3), "md": ("file", 7), "mdx": ("file", 8),
-    "graphs": ("set", 4), "search-index": ("set", 5), "search-static": ("set", 6), "write-global": ("set", 7),
+    "parse": ("file", 0), "prereg-module": ("file", 45), "prereg-submodule": ("file", 46), "topo": ("idset", 0),
+    "corr-set": ("fixed", 1), "corr-proc": ("file", 1), "corr-program": ("file", 2), "corr-blockdata": ("file", 3),
+    "prune-set": ("fixed", 2), "prune-proc": ("file", 4), "prune-program": ("file", 5),
+    "prune-blockdata": ("file", 6), "glue": ("fixed", 3), "md": ("file", 7), "mdx": ("file", 8),
+    "graphs": ("idset", 1), "search-index": ("fixed", 5), "search-static": ("fixed", 6),
+    "write-global": ("fixed", 7),
 }
 for _j in range(N_LISTS):
     PH[f"page-{_j}"] = ("file", 9 + _j)
     PH[f"rsearch-{_j}"] = ("file", 21 + _j)
     PH[f"rwrite-{_j}"] = ("file", 33 + _j)
-N_SEGS = 45
+N_SEGS = 47
 N_SETS = 8
+N_IDSETS = 2
 # position of every phase in the pipeline (to check that the observed run walks them in that order)
-PIPE = ([("file", 0), ("set", 0), ("set", 1), ("file", 1), ("file", 2), ("file", 3), ("set", 2), ("file", 4),
-         ("file", 5), ("file", 6), ("set", 3), ("file", 7), ("file", 8)]
-        + [("file", 9 + j) for j in range(N_LISTS)] + [("set", 4), ("set", 5)]
-        + [("file", 21 + j) for j in range(N_LISTS)] + [("set", 6)]
-        + [("file", 33 + j) for j in range(N_LISTS)] + [("set", 7)])
+PIPE = ([("file", 0), ("file", 45), ("file", 46), ("idset", 0), ("fixed", 1), ("file", 1), ("file", 2), ("file", 3),
+         ("fixed", 2), ("file", 4), ("file", 5), ("file", 6), ("fixed", 3), ("file", 7), ("file", 8)]
+        + [("file", 9 + j) for j in range(N_LISTS)] + [("idset", 1), ("fixed", 5)]
+        + [("file", 21 + j) for j in range(N_LISTS)] + [("fixed", 6)]
+        + [("file", 33 + j) for j in range(N_LISTS)] + [("fixed", 7)])
 PIPE_POS = {p: i for i, p in enumerate(PIPE)}
 
 
@@ -57,6 +60,7 @@ class Trace:
         self.unknown = []
         self.page_label = {}
         self.keep = []
+        self.topo_seen = False
 
     def rel(self, p):
         try:
@@ -139,6 +143,10 @@ class Instrument:
                 tr.info[k] = (str(item.get_dir()), str(item.name), _base_key(tr, item))
             tr.final[k] = r
             label, fkey = tr.label, tr.file
+            if label == "glue" and tr.stage == "correlate" and not tr.topo_seen \
+                    and getattr(item, "obj", None) in ("module", "submodule"):
+                # Project.correlate: "for module in chain(self.modules, self.submodules): module.ident"
+                label, fkey = f"prereg-{item.obj}", tr.owner(item)
             if label in ("docinit-other", "write-global") and fkey is None:
                 # page.outfile / page.loc evaluated by the loops over the entity pages
                 pg = self.docpage_on_stack(fo)
@@ -207,6 +215,7 @@ class Instrument:
         def topo(*a, **kw):
             if tr.stage == "correlate" and tr.depth == 0:
                 old = tr.label
+                tr.topo_seen = True
                 tr.label = "topo"
                 try:
                     return orig_topo(*a, **kw)
@@ -317,8 +326,9 @@ class Instrument:
 
 
 def traced_run(files, order, options=None, unsorted=False):
-    """-> dict(err, enum, ents {key: (dir, name)}, final {key: ident}, segs {(kind,k,file): [keys]},
-    sets {k: [keys]}, seq [(kind,k)] (the phases in the order they were first seen), unknown [labels])"""
+    """-> dict(err, enum, ents {key: (dir, name)}, final {key: ident}, segs {(k, file): [keys]},
+    fixed {k: [keys]}, idsets {k: [keys]}, seq [(kind, k)] (the phases in the order they were first seen),
+    unknown [labels])"""
     with F.Work(files) as w:
         tr = Trace(w.root)
         tr.enum, tr.forced = [], []
@@ -332,7 +342,7 @@ def traced_run(files, order, options=None, unsorted=False):
         key_of[k] = b + (occ[b],)
     ents = {key_of[k]: tr.info[k][:2] for k in tr.first}
     final = {key_of[k]: v for k, v in tr.final.items()}
-    segs, sets, seq, unknown = {}, {}, [], []
+    segs, fixed, idsets, seq, unknown = {}, {}, {}, [], []
     for label, fkey, k in tr.log:
         ph = PH.get(label)
         if ph is None:
@@ -342,9 +352,12 @@ def traced_run(files, order, options=None, unsorted=False):
             seq.append(ph)
         if ph[0] == "file":
             segs.setdefault((ph[1], fkey), []).append(key_of[k])
+        elif ph[0] == "fixed":
+            fixed.setdefault(ph[1], []).append(key_of[k])
         else:
-            sets.setdefault(ph[1], []).append(key_of[k])
-    return {"err": err, "log": out, "enum": tr.enum, "forced": tr.forced, "unsorted": bool(unsorted), "ents": ents, "final": final, "segs": segs, "sets": sets,
+            idsets.setdefault(ph[1], []).append(key_of[k])
+    return {"err": err, "log": out, "enum": tr.enum, "forced": tr.forced, "unsorted": bool(unsorted),
+            "ents": ents, "final": final, "segs": segs, "fixed": fixed, "idsets": idsets,
             "seq": seq, "unknown": sorted(set(unknown))}
 
 
@@ -463,98 +476,13 @@ def enumeration_order(root, seed):
     return [l for l in p.stdout.splitlines() if l.strip()] if p.returncode == 0 else None
 
 
-# ----------------------------------------------------------------------------- classification of differences
-
-TILDE = re.compile(r"~\d+")
-USES_ITEM = re.compile(r"^\s*<li class=\"list-inline-item\"><a href='[^']*'>[^<]*</a></li>\s*$")
-
+# ----------------------------------------------------------------------------- comparison of output trees
 
 def _lines(b):
     try:
         return b.decode("utf8").splitlines()
     except UnicodeDecodeError:
         return None
-
-
-def strip_numbers(tree):
-    """'~N' dropped from paths and contents"""
-    tb = re.compile(rb"~\d+")
-    return [(TILDE.sub("", p), tb.sub(b"", d)) for p, d in tree]
-
-
-def sort_lines(items):
-    """lines of every text file sorted (the items of a one-line <ul> count as lines); files as a sorted
-    multiset"""
-    out = []
-    for path, data in items:
-        ls = _lines(data)
-        if ls is not None:
-            ls = [x for l in ls for x in l.replace("</li>", "</li>\n").replace("<li>", "\n<li>").split("\n")]
-        out.append((path, data if ls is None else "\n".join(sorted(ls)).encode()))
-    return sorted(out)
-
-
-def canon_uses(data):
-    """sort every maximal run of consecutive 'Uses' list items"""
-    ls = _lines(data)
-    if ls is None:
-        return data
-    out, run = [], []
-    for l in ls:
-        if USES_ITEM.match(l):
-            run.append(l)
-        else:
-            out += sorted(run)
-            run = []
-            out.append(l)
-    out += sorted(run)
-    return "\n".join(out).encode()
-
-
-def canon_search_db(data, sort_pages, sort_words):
-    try:
-        txt = data.decode("utf8")
-        pre, js = txt.split("=", 1)
-        pages = json.loads(js.strip().rstrip(";"))["pages"]
-        if sort_words:
-            for pg in pages:
-                pg["text"] = " ".join(sorted(str(pg.get("text", "")).split()))
-        if sort_pages:
-            pages = sorted(pages, key=lambda p: json.dumps(p, sort_keys=True))
-        return (pre + json.dumps(pages, sort_keys=True)).encode()
-    except Exception:  # noqa
-        return data
-
-
-def canon_modules_json(data):
-    try:
-        d = json.loads(data.decode("utf8"))
-        d["modules"] = sorted(d.get("modules", []), key=lambda m: json.dumps(m, sort_keys=True))
-        return json.dumps(d, sort_keys=True).encode()
-    except Exception:  # noqa
-        return data
-
-
-SEARCH_DB = "search/search_database.json"
-
-
-def apply_canon(tree, kinds):
-    """the tree with exactly the freedom the given OPEN findings allow removed
-    (toposort-id-order: which twin module is `m`, which `m~2`; uses-set-order: order of "Uses" items)"""
-    numbering = "toposort-id-order" in kinds
-    items = sorted(tree.items())
-    if numbering:
-        items = strip_numbers(items)
-    out = []
-    for p, d in items:
-        if p == SEARCH_DB and ("uses-set-order" in kinds or numbering):
-            d = canon_search_db(d, numbering, "uses-set-order" in kinds)
-        if p == "modules.json" and numbering:
-            d = canon_modules_json(d)
-        if p.endswith(".html") and "uses-set-order" in kinds:
-            d = canon_uses(d)
-        out.append((p, d))
-    return sort_lines(out) if numbering else sorted(out)
 
 
 def first_difference(a, b):
@@ -574,17 +502,9 @@ def first_difference(a, b):
     return None
 
 
-def classify(a, b, applicable):
-    """-> None when the trees are byte-identical; otherwise (explained_by, detail): explained_by is the
-    smallest set of applicable recorded findings whose canonicalisation makes the trees equal, or None
-    when no such set exists (a VIOLATION)."""
+def classify(a, b, applicable=()):
+    """-> None when the trees are byte-identical; otherwise (None, detail).  No open finding allows two runs
+    to differ any more, so nothing explains a difference ([applicable] is kept for old replay files)."""
     if a == b:
         return None
-    detail = first_difference(a, b)
-    kinds = sorted(applicable)
-    import itertools
-    for n in range(1, len(kinds) + 1):
-        for sub in itertools.combinations(kinds, n):
-            if apply_canon(a, sub) == apply_canon(b, sub):
-                return list(sub), detail
-    return None, detail
+    return None, first_difference(a, b)
